@@ -505,6 +505,9 @@ func VerifHeaderParse(d []byte, p int, dl int, l int) {}
 //@   ensures [error-atomic] err != nil ==> (forall i int :: {options[i].ID} 0 <= i && i < len(options) ==> options[i] == old(options[i])) && bytesEqOld(buf, buf)
 //@   ensures [copied-ids] err == nil ==> len(r) == len(in) && (forall j int :: {r[j].ID} 0 <= j && j < len(in) ==> r[j].ID == in[j].ID)
 //@   ensures [copied-slices] err == nil ==> (forall j int :: {r[j].ID} 0 <= j && j < len(in) ==> r[j].Value == buf[sumLens(in, j) : sumLens(in, j + 1)])
+//@   ensures [copied-lens] err == nil ==> (forall j int :: {r[j].ID} 0 <= j && j < len(in) ==> len(r[j].Value) == len(in[j].Value))
+//@   ensures [backing] err == nil ==> (r[0:0] == options[0:0] && cap(r) == cap(options)) || fresh(r)
+//@   ensures [prefix-sums] forall j int :: {sumLens(in, j)} 0 <= j && j <= len(in) ==> 0 <= sumLens(in, j) && sumLens(in, j) <= n
 //   (not claimed: that the bytes of every value are copied; the invariant needed for it does not discharge robustly)
 //@   loop 0:
 //@     invariant 0 <= #iter && #iter <= len(in) && needed == sumLens(in, #iter) && 0 <= needed && needed <= 281474976710656 * #iter
@@ -518,6 +521,7 @@ func VerifHeaderParse(d []byte, p int, dl int, l int) {}
 //@     invariant forall j int :: {sumLens(in, j)} 0 <= j && j <= len(in) ==> 0 <= sumLens(in, j) && sumLens(in, j) <= needed
 //@     invariant [ids] forall j int :: {opts[j].ID} 0 <= j && j < #iter ==> opts[j].ID == in[j].ID
 //@     invariant [slices] forall j int :: {opts[j].ID} 0 <= j && j < #iter ==> opts[j].Value == old(buf)[sumLens(in, j) : sumLens(in, j + 1)] && 0 <= sumLens(in, j) && sumLens(in, j + 1) <= used
+//@     invariant [lens] forall j int :: {opts[j].ID} 0 <= j && j < #iter ==> len(opts[j].Value) == len(in[j].Value)
 //@     unfold sumLens(in, #iter + 1)
 //@     decreases len(in) - #iter
 
